@@ -39,6 +39,14 @@ impl Syms {
                 ar.put_fn(a, u32::from_str_radix(m, 16).unwrap());
                 continue;
             }
+            if let Some(v) = d.strip_prefix("G=") {
+                // a function that begins with a CET landing pad (endbr64), as C code built with -fcf-protection does
+                let (a, m) = v.split_once('/').unwrap();
+                let a = u64::from_str_radix(a, 16).unwrap();
+                let ar = arenas.iter().find(|x| a >= x.base && a + 10 <= x.base + x.len as u64).expect("G= outside arenas");
+                ar.put_fn_cet(a, u32::from_str_radix(m, 16).unwrap());
+                continue;
+            }
             if let Some(v) = d.strip_prefix("J=") {
                 // a forwarding stub: jmp rel32 to <dest> (an alias / tail-call wrapper / linker veneer)
                 let (a, t) = v.split_once('/').unwrap();
@@ -50,6 +58,12 @@ impl Syms {
             }
             if d == "S" { for a in &arenas { a.seal(); } continue; }
             //   X=<addr>/<pages>  somebody else's code pages at a chosen address (e.g. exactly where the allocator's first hints point)
+            //   XW=<addr>/<pages>  the same, but writable as well as executable (somebody else's JIT arena)
+            if let Some(v) = d.strip_prefix("XW=") {
+                let t: Vec<u64> = v.split('/').map(|x| u64::from_str_radix(x, 16).unwrap()).collect();
+                for i in 0..t[1] { if map_foreign(t[0] + 4096 * i) { unsafe { interpose::raw_mprotect((t[0] + 4096 * i) as *mut libc::c_void, 4096, libc::PROT_READ | libc::PROT_WRITE | libc::PROT_EXEC); } FOREIGN_RWX.lock().unwrap().push(t[0] + 4096 * i); } }
+                continue;
+            }
             if let Some(v) = d.strip_prefix("X=") {
                 let t: Vec<u64> = v.split('/').map(|x| u64::from_str_radix(x, 16).unwrap()).collect();
                 for i in 0..t[1] { map_foreign(t[0] + 4096 * i); }
@@ -210,6 +224,8 @@ fn live_jits(upto: usize) -> Vec<(u64, u64)> {
 
 /// a page the HARNESS maps (not the injector) over the most recently released trampoline address: (addr, expected content)
 pub static FOREIGN: std::sync::Mutex<Vec<(u64, Vec<u8>)>> = std::sync::Mutex::new(Vec::new());
+/// the foreign pages that are writable as well (XW=): their owner's choice, not a change
+pub static FOREIGN_RWX: std::sync::Mutex<Vec<u64>> = std::sync::Mutex::new(Vec::new());
 fn foreign_state() -> String {
     let f = FOREIGN.lock().unwrap();
     if f.is_empty() { return "none".into(); }
@@ -218,7 +234,7 @@ fn foreign_state() -> String {
         let m = maps.iter().find(|m| m.start <= *a && *a + 4096 <= m.end);
         match m {
             None => return format!("unmapped:{:x}", a),
-            Some(m) if !m.perms.starts_with("r-x") => return format!("remapped:{:x}:{}", a, m.perms),
+            Some(m) if !(m.perms.starts_with("r-x") || (m.perms.starts_with("rwx") && FOREIGN_RWX.lock().unwrap().contains(a))) => return format!("remapped:{:x}:{}", a, m.perms),
             Some(_) => { let cur = unsafe { std::slice::from_raw_parts(*a as *const u8, 4096) }; if cur != &want[..] { return format!("clobbered:{:x}", a); } }
         }
     }
